@@ -164,15 +164,18 @@ def _all_views():
     return names + sorted(EXTRA)
 
 
-def _build(name, n, ragged, wrap=None):
+def _build(name, n, ragged, wrap=None, side=0):
     a = C.table_a(n, ragged=ragged)
-    if wrap is not None:
+    if wrap is not None and side == 0:
         a = wrap(a)
     if name in EXTRA:
         return EXTRA[name](a)
     e = C.by_name(name)
     if e.arity == 2:
-        return e.build(a, C.second_for(e, 3))
+        b = C.second_for(e, 3)
+        if wrap is not None and side == 1:
+            b = wrap(b)
+        return e.build(a, b)
     return e.build(a)
 
 
@@ -272,6 +275,12 @@ def cases(ctx):
                 for k in range(1, n + 1):
                     for w in ('s0 ' + 'n0 ' * (L + 1) + 's1 s2 ' + 'n1 n2 ' * (L + 1), 's0 s1 ' + 'n1 ' * (L + 1) + 'n0 ' * (L + 1)):
                         yield {'view': name, 'n': n, 'ragged': ragged, 'schedule': _word(w), 'failpass': k}
+                # the same with the fault in the *second* input of a binary operator (the side a hash join loads into its lookup,
+                # the right side of a merge join / set operation)
+                if name not in EXTRA and C.by_name(name).arity == 2 and n <= 3:
+                    for k in range(1, 4):
+                        for w in ('s0 ' + 'n0 ' * (L + 1) + 's1 s2 ' + 'n1 n2 ' * (L + 1), 's0 s1 ' + 'n1 ' * (L + 1) + 'n0 ' * (L + 1)):
+                            yield {'view': name, 'n': n, 'ragged': ragged, 'schedule': _word(w), 'failpass': k, 'failside': 1}
             # random schedules with clearcache() calls in between, for the views that have one
             if name in CACHING or name.startswith(('sort', 'cache', 'x:cache', 'x:sort')):
                 for _ in range(ctx.pick(25, 400)):
@@ -355,7 +364,7 @@ def judge(case, ctx):
         ctx.seen('views-whose-reference-is-their-own-first-pass')
         saved = (_build, _solo)
         g = globals()
-        g['_build'] = lambda nm, n_, rg, wrap=None: view0 if nm == name else saved[0](nm, n_, rg, wrap)
+        g['_build'] = lambda nm, n_, rg, wrap=None, side=0: view0 if nm == name else saved[0](nm, n_, rg, wrap, side)
         g['_solo'] = lambda nm, n_, rg: solo0 if nm == name else saved[1](nm, n_, rg)
         try:
             return _judge(case, ctx)
@@ -385,7 +394,9 @@ def _judge(case, ctx):
         def wrap(a):
             holder.append(probes.CountingSource(a))
             return holder[0]
-        view = _build(name, n, ragged, wrap)
+        view = _build(name, n, ragged, wrap, case.get('failside', 0))
+        if case.get('failside'):
+            ctx.seen('failed-pass:fault-in-the-second-input')
         src = holder[0]
         src.fail_next_at = fp
         try:
